@@ -502,8 +502,12 @@ impl TransformerContext {
     /// Open the scope of `el`: its attributes become local variables, subject to the
     /// same limit on their length as any other variable.
     pub fn push_element_scope(&mut self, el: &SvgElement) -> Result<()> {
-        for (name, value) in el.get_attrs() {
-            self.check_var_limit(&name, &value)?;
+        // (in the order written, so the same attribute is reported every time; the `_` /
+        // `__` comment attributes are not variables - `<var>` skips them too)
+        for (name, value) in &el.attrs {
+            if name != "_" && name != "__" {
+                self.check_var_limit(name, value)?;
+            }
         }
         self.push_element(el);
         Ok(())
